@@ -278,7 +278,7 @@ Qed.
 
 (* ---------------------------------------------------------------- any attempt from any reader state that satisfies the invariant *)
 Definition ATT (phs : list phase) : Prop := forall T F c kf f, INVx T F c ->
-  att_ok u ku zN n em cF Sall T kf (run_attempt u n T F c phs kf f).
+  att_ok u ku zN n em cF Sall T kf (run_attempt u n (fun x => x) T F c phs kf f).
 
 Theorem att_short : len d < 255 -> ATT [ph_len0 L; ph_data L d; ph_len_short L d].
 Proof. intros Hd T F c kf f HI.
